@@ -21,6 +21,8 @@ inductive Why
   | inputView        -- internal function returning (a sub-slice of) its input to its internal caller, which does not hand it out
   | protoMarshalled  -- stored into a proto message that is marshalled / parsed before the function returns
   | perCall          -- stored into an object that lives only for the duration of the call
+  | internalOwned    -- constructor of a Go-internal package whose (public) callers pass library-owned copies; the public
+                     -- entry points are exercised by the guard-region harness
   deriving DecidableEq, Repr
 
 def allowed : List (Fact × Why) := [
@@ -49,7 +51,10 @@ def allowed : List (Fact × Why) := [
   (⟨"internal/signature", "AdjustEncodingLengths", "return-param", "dq"⟩, .inputView),
   (⟨"internal/signature", "Pad", "return-param", "toPad"⟩, .inputView),
   (⟨"internal/signature/slhdsa", "params.chain", "return-param", "x"⟩, .inputView),
+  (⟨"keyderivation/internal/streamingprf", "NewHKDFStreamingPRF", "retain-param", "HKDFStreamingPRF{key}=key"⟩, .internalOwned),
+  (⟨"keyderivation/internal/streamingprf", "NewHKDFStreamingPRF", "retain-param", "HKDFStreamingPRF{salt}=salt"⟩, .internalOwned),
   (⟨"keyderivation/prfbasedkeyderivation", "keyManager.NewKeyData", "retain-param", "tinkpb.KeyTemplate{Value}=serializedKeyFormat"⟩, .protoMarshalled),
+  (⟨"mac", "fullMACAdapter.data", "return-param", "data"⟩, .inputView),
   (⟨"mac/aescmac", "fullMAC.message", "return-param", "msg"⟩, .inputView),
   (⟨"mac/hmac", "fullMAC.message", "return-param", "msg"⟩, .inputView),
   (⟨"prf", "createHKDFPRFKeyTemplate", "retain-param", "hkdfpb.HkdfPrfParams{Salt}=salt"⟩, .protoMarshalled),
